@@ -26,7 +26,7 @@ from simkit import arwriter
 
 ID = "C07"
 LEVEL = "exploration"
-TIERS = {"quick": {"runs": 12000, "wall": 150}, "thorough": {"runs": 400000, "wall": 1500}}
+TIERS = {"quick": {"runs": 30000, "wall": 150}, "thorough": {"runs": 400000, "wall": 1500}}
 HASHSEED_RUNS = {"quick": 300, "thorough": 3000}
 RULE = ("world = seeded package: control fields, any subset of the 5 maintainer scripts with "
         "binary content, 0..8 data files (names with spaces / nested directories / non-ASCII, "
